@@ -211,3 +211,32 @@ class VC_engine_pow_sound(Lemma):
         return {'sound': True if r is None else
                          ((class_of(r) in s) if cls_name(r) == 'Float' else
                           ((r != 0 and vc_has(s, ValueClass.FINITE)) or (r == 0 and vc_has(s, ValueClass.ZERO))))}
+
+
+# ---------------------------------------------------------------------------
+# A4: the phi join of the analysis (`_merge_phis`, `_fixpoint`, `_visit_if_expr`: `lhs | rhs`) and the refinement
+# meet (`_refined`: `mask & cls`) on the Flag lattice: | is the least upper bound, & the greatest lower bound of
+# set inclusion; TOP / the empty flag are the extremes.  All 16 x 16 (x 16) values.
+
+class VC_join_meet(Lemma):
+    params = {'a': 'ValueClass'}
+    properties = ['C13']
+    split = ['a']
+
+    def post(a):
+        vs = vc_all()
+        return {
+            'join_commutative': all([(a | b) == (b | a) for b in vs]),
+            'join_idempotent': (a | a) == a,
+            'join_upper_bound': all([vc_subset(a, a | b) and vc_subset(b, a | b) for b in vs]),
+            'join_least': all([vc_subset(a | b, c) for b in vs for c in vs if vc_subset(a, c) and vc_subset(b, c)]),
+            'join_associative': all([((a | b) | c) == (a | (b | c)) for b in vs for c in vs]),
+            'meet_commutative': all([(a & b) == (b & a) for b in vs]),
+            'meet_lower_bound': all([vc_subset(a & b, a) and vc_subset(a & b, b) for b in vs]),
+            'meet_greatest': all([vc_subset(c, a & b) for b in vs for c in vs if vc_subset(c, a) and vc_subset(c, b)]),
+            'extremes': vc_subset(a, ValueClass.TOP) and vc_subset(vc_bot(), a) and (a | vc_bot()) == a and (a & ValueClass.TOP) == a,
+            # membership (`in`) agrees with inclusion of an atom
+            'membership': all([(p in a) == vc_has(a, p) for p in VC_ATOMS]),
+            # the concretisation is monotone: a class set contains an atom iff one of its atoms is that atom
+            'atoms': a == vc_join(vc_atoms(a)),
+        }
